@@ -80,3 +80,40 @@ Theorem C14_checker_accepts_model : forall a b ops,
   chk_C14_pair a b (api_pair a ops b ops) = if tree_wf a && tree_wf b then 0 else 100.
 Proof. exact EqObsHist.E4_checker_accepts. Qed.
 Print Assumptions C14_checker_accepts_model.
+
+(* ---- DIFFERENT histories on the two sides ------------------------------------------------------
+   Equal sources with caches nested anywhere (no ReplaceSource with replacements above a cache: K2)
+   answer alike after ANY two histories, in everything the checker compares - text, bytes,
+   attribution of both maps, the content carried for every referenced file, hash, == - except
+   inside the class k7c_shape (known finding K7: a CachedSource whose wrapped stream announces files
+   while attributing no text, or announces a content-less file before one with content), where only
+   the content clauses can differ and the checker answers exactly 57.  The class was widened after
+   the first attempt at this proof failed (EqDiffRefute.old_class_too_narrow). *)
+From RS Require Proofs.ColdCache Proofs.WarmTreeDefs Proofs.CompWarmContInv Proofs.CompWarmLawsFull Proofs.EqDiffBase Proofs.EqDiffChk Proofs.EqDiffStrict Proofs.EqDiffRefute.
+Theorem C14_eq_different_histories : forall a b opsa opsb,
+  src_eqb a b = true -> ColdCache.ids_distinct a -> ColdCache.ids_distinct b ->
+  WarmTreeDefs.cls a -> WarmTreeDefs.cls b ->
+  let v := chk_C14_pair a b (api_pair a opsa b opsb) in
+  v = 0 \/ (k7c_shape a = true /\ v = 57).
+Proof. exact EqDiffStrict.D1_final. Qed.
+Print Assumptions C14_eq_different_histories.
+
+Theorem C14_eq_different_histories_outside_K7 : forall a b opsa opsb,
+  src_eqb a b = true -> ColdCache.ids_distinct a -> ColdCache.ids_distinct b ->
+  WarmTreeDefs.cls a -> WarmTreeDefs.cls b -> k7c_shape a = false ->
+  chk_C14_pair a b (api_pair a opsa b opsb) = 0.
+Proof. exact EqDiffStrict.D2_final. Qed.
+Print Assumptions C14_eq_different_histories_outside_K7.
+
+(* the class is needed (the finding), and it contains the class first registered *)
+Theorem C14_K7_class_needed : ~ (forall a b opsa opsb,
+  src_eqb a b = true -> ColdCache.ids_distinct a -> ColdCache.ids_distinct b ->
+  WarmTreeDefs.cls a -> WarmTreeDefs.cls b ->
+  CompWarmLawsFull.consistentb (CompWarmContInv.decl a) = true ->
+  chk_C14_pair a b (api_pair a opsa b opsb) = 0).
+Proof. exact EqDiffRefute.D2_needs_class. Qed.
+Print Assumptions C14_K7_class_needed.
+
+Theorem C14_K7_class_widened : forall s, k7_shape s = true -> k7c_shape s = true.
+Proof. exact EqDiffStrict.k7_k7c. Qed.
+Print Assumptions C14_K7_class_widened.
